@@ -207,6 +207,9 @@ fn nasty_string() -> impl Strategy<Value = String> {
 pub struct C18;
 impl Prop for C18 {
     type Case = Trip;
+    fn heavy(k: &Trip) -> bool {
+        k.big.map_or(false, |(c, r)| c as u64 * r as u64 > 2000) || k.cols as usize * k.rows as usize > 2000
+    }
     const ID: &'static str = "C18";
     fn rule() -> &'static str {
         "round trip: arrays of shapes (0,0), 1xN, Nx1 and up to 6x6 with element types u32, i64, (), String (arbitrary Unicode incl. quotes, backslashes, control characters, surrogate-adjacent code points), Option<u32>, Vec<u8>, nested TooDee<u32>, serialised and deserialised through to_string/from_str, to_vec/from_slice, to_writer/from_reader and to_value/from_value; views and mutable views (strided windows of u32 parents) must round-trip to TooDee::from(view). Exhaustive over all shapes (0..=6)^2 x 6 element types x 4 transports and all windows of a 4x4 parent, random cell contents. Oracle: decoded == original (dimensions and every cell). No floats (NaN / precision would make the oracle flaky). Non-trivial = a non-empty array through from_reader / from_value, or an empty array, or a strided view, or a String needing escapes. Distinct = distinct case."
@@ -281,6 +284,13 @@ impl Prop for C18 {
             .boxed()
     }
     fn fuzz_sanitize(k: &mut Trip) -> bool {
+        // (found by the thorough fuzz sweep at seed 1: an unbounded override made the HARNESS
+        // allocate 70 GB; see DESIGN section 9)
+        if let Some((c, r)) = k.big {
+            if c as u64 * r as u64 > 300_000 {
+                k.big = None;
+            }
+        }
         if k.cols > 200 && k.rows > 200 {
             // keep the occasional very large array
         } else {
